@@ -53,6 +53,11 @@ pub enum RecKind {
     Snapshot { at: &'static str, config: Vec<u32>, to_invoke: Vec<u32>, children: Vec<String>, delayed: Vec<String>, running: bool },
     /// `mark(...)` custom action: evaluated inside executable content, GlobalData locked by the caller.
     Mark { args: Vec<String>, config: Vec<u32> },
+    // ---- simulated HTTP transport (http seam; HttpDispatch/HttpHandled are pushed by the network task)
+    HttpPost { req: u64, url: String, pairs: Vec<(String, String)>, fate: u8 },
+    HttpDispatch { req: u64, copy: u8, path: String },
+    HttpHandled { req: u64, copy: u8, status: u16, body: String },
+    HttpReply { req: u64, status: Option<u16> },
     // ---- harness driver
     Driver { what: String },
 }
@@ -105,6 +110,8 @@ pub struct Recorder {
     pub producers_busy: usize,
     pub timers_inflight: usize, // due (<= now), not cancelled, callback not finished
     pub timer_tasks_live: usize,
+    /// request copies handed to the simulated network and not handled yet
+    pub net_inflight: usize,
     pub timer_items: BTreeMap<u64, TimerItem>,
     pub driver_waiting: bool,
     // lock bookkeeping
@@ -143,6 +150,7 @@ impl Recorder {
             producers_busy: 0,
             timers_inflight: 0,
             timer_tasks_live: 0,
+            net_inflight: 0,
             timer_items: BTreeMap::new(),
             driver_waiting: false,
             held: BTreeMap::new(),
@@ -156,7 +164,7 @@ impl Recorder {
     }
 
     pub fn quiescent(&self) -> bool {
-        self.rfsm_threads_live == self.rfsm_threads_idle && self.producers_busy == 0 && self.timers_inflight == 0
+        self.rfsm_threads_live == self.rfsm_threads_idle && self.producers_busy == 0 && self.timers_inflight == 0 && self.net_inflight == 0
     }
 
     pub fn bump(&mut self, key: &'static str) {
